@@ -134,7 +134,7 @@ def gen_cond_positions(conds=INT_CONDS):
 VALUE_CALLS = ["clz32(%s)", "clz64(%s)", "clo32(%s)", "clo64(%s)", "revbit16(%s)", "revbit32(%s)", "revbit64(%s)", "fbrev(%s)", "conv_round(%s, 2)", "conv_round(5, %s)", "bswap16(%s)", "bswap32(%s)", "bswap64(%s)",
                "extract64(%s, 0, 8)", "extract64(RttV, %s, 4)", "sextract64(%s, 4, 4)", "deposit64(%s, 0, 8, RttV)", "deposit32(RtV, 0, 8, %s)", "extract32(%s, 8, 8)", "mem_load_u8(%s)", "mem_load_s32(%s)", "get_usr_field(bundle, HEX_REG_FIELD_USR_OVF) + %s"]
 VOID_CALLS = ["set_usr_field(bundle, HEX_REG_FIELD_USR_OVF, %s)", "set_usr_field(bundle, HEX_REG_FIELD_USR_LPCFG, %s)", "trap(%s, 1)", "trap(0, %s)", "mem_store_u8(%s, RtV)", "mem_store_u32(RtV, %s)", "JUMP(%s)"]
-CALL_ARGS = ["RsV", "a", "c", "(RsV + 1)", "(RsV & 0xff)", "clz32(RsV)", "5", "((int8_t)RsV)", "RssV", "a++", "(a < c)", "(c ? a : 1)", "mem_load_u8(RsV)", "siV", "PuV", "-a"]
+CALL_ARGS = ["RsV", "a", "c", "(RsV + 1)", "(RsV & 0xff)", "clz32(RsV)", "5", "((int8_t)RsV)", "RuuV", "a++", "(a < c)", "(c ? a : 1)", "mem_load_u8(RsV)", "siV", "PuV", "-a"]
 
 
 def gen_calls(args=CALL_ARGS):
